@@ -7,6 +7,8 @@ package lib
 // real logger at its default level; the orchestrator greps the captured process output.
 
 import (
+	"context"
+	"errors"
 	"fmt"
 	"net"
 	"os"
@@ -16,10 +18,13 @@ import (
 	"github.com/go-redis/redis/v8"
 	"github.com/refraction-networking/conjure/internal/conjurepath"
 	kit "github.com/refraction-networking/conjure/internal/verifkit"
+	pdtls "github.com/refraction-networking/conjure/pkg/dtls"
 	"github.com/refraction-networking/conjure/pkg/station/log"
+	cdtls "github.com/refraction-networking/conjure/pkg/transports/connecting/dtls"
 	"github.com/refraction-networking/conjure/pkg/transports/wrapping/min"
 	pb "github.com/refraction-networking/conjure/proto"
 	"google.golang.org/protobuf/proto"
+	"google.golang.org/protobuf/types/known/anypb"
 )
 
 type c17Live struct{ live bool }
@@ -60,6 +65,13 @@ func TestVerifC17Ingest(t *testing.T) {
 	if err := rm.AddTransport(pb.TransportType_Min, min.Transport{}); err != nil {
 		t.Fatal(err)
 	}
+	// a connecting transport (DTLS) whose both attempts fail: the dial towards the client's address has no
+	// route in this sandbox ("connect: network is unreachable", an error text that names the client) and
+	// the stand-in listener refuses at once.  Whatever the station does with that error, it must not print it.
+	if err := rm.AddTransport(pb.TransportType_DTLS, cdtls.VerifNewTransport(c17Listener{}, c17DNAT{})); err != nil {
+		t.Fatal(err)
+	}
+	rm.connectingStats = c17ConnStats{}
 	clients := []struct {
 		name string
 		ip   net.IP
@@ -132,6 +144,18 @@ func TestVerifC17Ingest(t *testing.T) {
 				w.RegistrationSource = &s
 				w.RegistrationResponse = &pb.RegistrationResponse{Ipv4Addr: proto.Uint32(0xC07ABE02)}
 			}, false)
+			run(cl, "dtls-connect-fails", func(w *pb.C2SWrapper) {
+				w.RegistrationPayload.Transport = pb.TransportType_DTLS.Enum()
+				ip4 := clients[cl].ip.To4()
+				if ip4 == nil {
+					ip4 = net.ParseIP("203.0.113.77").To4()
+				}
+				params, _ := anypb.New(&pb.DTLSTransportParams{
+					SrcAddr4: &pb.Addr{IP: ip4, Port: proto.Uint32(40777)},
+					SrcAddr6: &pb.Addr{IP: net.ParseIP("2001:db8::77:88"), Port: proto.Uint32(40777)},
+				})
+				w.RegistrationPayload.TransportParams = params
+			}, false)
 			run(cl, "unknown-generation", func(w *pb.C2SWrapper) { w.RegistrationPayload.DecoyListGeneration = proto.Uint32(424242) }, false)
 			run(cl, "unknown-transport", func(w *pb.C2SWrapper) { w.RegistrationPayload.Transport = pb.TransportType_Obfs4.Enum() }, false)
 			run(cl, "short-secret", func(w *pb.C2SWrapper) { w.SharedSecret = []byte{1, 2, 3} }, false)
@@ -156,8 +180,28 @@ func TestVerifC17Ingest(t *testing.T) {
 		rec.Count("evaluations", 1)
 	}
 	// let the fire-and-forget share goroutines finish (their error lines are part of what is scanned)
-	if left := kit.WaitNoGoroutineIn(60*time.Second, "lib.tryShareRegistrationOverAPI"); left != nil {
+	if left := kit.WaitNoGoroutineIn(60*time.Second, "lib.tryShareRegistrationOverAPI", "lib.handleConnectingTpReg", "connecting/dtls.(*Transport).Connect"); left != nil {
 		rec.Inconclusive("share goroutines still running at the end", len(left))
 	}
 	fmt.Fprintf(os.Stdout, "VERIFCASE %d\n", 9999999)
 }
+
+type c17Listener struct{}
+
+func (c17Listener) AcceptWithContext(ctx context.Context, c *pdtls.Config) (net.Conn, error) {
+	return nil, errors.New("seed already registered")
+}
+
+type c17DNAT struct{}
+
+func (c17DNAT) AddEntry(clientAddr *net.IP, clientPort uint16, phantomIP *net.IP, phantomPort uint16) error {
+	return nil
+}
+
+type c17ConnStats struct{}
+
+func (c17ConnStats) AddCreatedConnecting(asn uint, cc string, tp string)               {}
+func (c17ConnStats) AddCreatedToSuccessfulConnecting(asn uint, cc string, tp string)   {}
+func (c17ConnStats) AddCreatedToTimeoutConnecting(asn uint, cc string, tp string)      {}
+func (c17ConnStats) AddSuccessfulToDiscardedConnecting(asn uint, cc string, tp string) {}
+func (c17ConnStats) AddOtherFailConnecting(asn uint, cc string, tp string)             {}
